@@ -98,6 +98,13 @@ pub fn take() -> Vec<Value> {
     std::mem::take(&mut lock().lines)
 }
 
+/// Visit every recorded line in order.
+pub fn scan(mut f: impl FnMut(&Value)) {
+    for l in lock().lines.iter() {
+        f(l);
+    }
+}
+
 pub fn len() -> usize {
     lock().lines.len()
 }
